@@ -3,8 +3,8 @@
 package xmpp
 
 import (
-	"errors"
 	"encoding/xml"
+	"errors"
 	"fmt"
 	"strings"
 	"testing"
